@@ -85,7 +85,7 @@ PROPS = {
                 "the platform package recognises, values of the documented YAML type; plus ill-typed values as a separate stream) combined with user "
                 "options for the same settings; compared with the model: canonical dump of 43 public settings (regexes by source, funcs/loggers by "
                 "count, durations in ns), error class, panic; non-trivial = more than one option",
-        "level_text": "Theorems C19_* (22) over the model of the option closures and the constructors' application passes hold for ALL option lists: "
+        "level_text": "C19_options_are_source / C19_option_loops_are_source: the closure of every option constructor and the eight loops that apply an option list, AS TRANSLATED FROM THE SOURCE ON THIS RUN, assert the object, assign the fields and stop at the first real error exactly as the model says (for every list of outcomes). Theorems C19_* (22) over the model of the option closures and the constructors' application passes hold for ALL option lists: "
                       "build is one fold in list order per object, last-wins for overwrite settings, additive settings accumulate, frame (unnamed "
                       "settings keep defaults), adjacent-swap permutation, invalid value rejected at any position, ignored options raise no error, "
                       "user options override platform options, every recognised platform option with a well-typed value takes effect without panic. "
@@ -134,7 +134,7 @@ PROPS = {
     "C04": {
         "pf": True,
         "n": {"quick": 250, "thorough": 8000},
-        "cone": ["Bytes", "BytesLemmas", "Regex", "Generated", "Channel", "Network", "NetworkAbs", "NetworkLemmas", "NetworkTwins", "NetworkHistory", "NetworkHistoryLemmas", "Replay", "DecideLang", "GeneratedSkel", "Decide"],
+        "cone": ["Bytes", "BytesLemmas", "Regex", "Generated", "Channel", "Network", "NetworkAbs", "NetworkLemmas", "NetworkTwins", "NetworkHistory", "NetworkHistoryLemmas", "Replay", "DecideLang", "GeneratedSkel", "Decide", "DecideLoops", "NetworkSrc"],
         "rx": True,
         "rule": "network.Driver over the simulated transport against a privilege-tree device: random rooted labelled trees of 1-6 levels (with and "
                 "without authenticated edges, with/without secondary secret), every kind of start mode / default level, histories of 1-6 operations "
